@@ -674,6 +674,8 @@ def step(model, mirror: dict, op: dict, *, cache_populated_counter: list[int], c
             # continue from the state the model is really in: rebuild is impossible -> stop history
             return mirror, viols + [{"_stop": True}]  # type: ignore[list-item]
         if not exp_reject:
+            if _fresh_refuses_alike(mirror, op, rejected):
+                return mirror, viols  # the content as it stands cannot be evaluated; a fresh model answers the same way
             viols.append(core.viol("legal edit refused", None, op=op, error=rejected))
             return mirror, viols + [{"_stop": True}]  # type: ignore[list-item]
         return mirror, viols
@@ -772,6 +774,8 @@ def run_case(case: dict) -> dict:
         if case.get("idx", 0) % 97 == 0:
             sample = {"history": history}
     counters["mutator_ran_with_cache_populated"] = cpc[0]
+    counters["evaluating_edit_refused_on_unresolvable_content(fresh model alike)"] = FRESH_REFUSALS[0]
+    FRESH_REFUSALS[0] = 0
     # dedupe
     seen = set()
     out = []
@@ -801,6 +805,8 @@ def _step_nocache_probe(model, mirror, op, pre, cpc):  # noqa: ANN001, ANN202
     if rejected is None and exp_reject:
         return mirror, [core.viol("edit with duplicate/unknown name was accepted", _mech_accepted(op), op=op)]
     if rejected is not None and not exp_reject:
+        if _fresh_refuses_alike(mirror, op, rejected):
+            return mirror, []
         return mirror, [core.viol("legal edit refused", None, op=op, error=rejected)]
     fresh = rm.build(target)
     d = diff_obs(observe(model), observe(fresh))
@@ -808,6 +814,26 @@ def _step_nocache_probe(model, mirror, op, pre, cpc):  # noqa: ANN001, ANN202
         what = "rejected edit changed an observable" if rejected is not None else "edited model differs from a freshly built model with the same content"
         viols.append(core.viol(what, None, op=op, error=rejected, differing={k: v for k, v in list(d.items())[:4]}))
     return target, viols
+
+
+FRESH_REFUSALS = [0]
+
+
+def _fresh_refuses_alike(mirror: dict, op: dict, rejected: str) -> bool:
+    """An edit that has to evaluate the model (scaling an assignment-defined parameter, ...) cannot succeed while the
+    content is unresolvable (a name is missing, a cycle). That is not a rejected duplicate/unknown name: the statement's
+    oracle decides - a freshly built model with the same content must refuse the same edit with the same error type."""
+    kind = rejected.split(":", 1)[0]
+    if kind not in ("MissingDependenciesError", "CircularDependencyError"):
+        return False
+    try:
+        fresh = rm.build(mirror)
+        apply_real(fresh, op)
+    except Exception as e:  # noqa: BLE001
+        if type(e).__name__ == kind:
+            FRESH_REFUSALS[0] += 1
+            return True
+    return False
 
 
 def _small_spec(rng) -> dict:  # noqa: ANN001
